@@ -41,7 +41,7 @@ def property_units(prop):
     """units of the property + the home unit of every imported repo contract (transitive)"""
     import contracts
     reg = contracts.registry()
-    own = [u for u in reg.values() if u.prop == prop]
+    own = [u for u in reg.values() if prop in u.props]
     if not own:
         return [], reg
     home = {}
